@@ -8,7 +8,7 @@ P = 'P'
 # ---- launch environments (every value is a unique token that is not a substring of another one)
 LAUNCH = {
     'rich': {'LA': 'launchLA', 'LB': 'launchLB', 'LC': 'launchLC', 'K1': 'launchK1', 'K3': 'launchK3',
-             'D1': 'launchD1', 'PATH': '/launch/bin', 'PYTHONPATH': '/launch/py', 'PYTHONHOME': '/launch/home',
+             'D1': 'launchD1', 'D4': 'launchD4', 'PATH': '/launch/bin', 'PYTHONPATH': '/launch/py', 'PYTHONHOME': '/launch/home',
              'LD_LIBRARY_PATH': '/launch/lib', 'HOME': '/launch/user', 'UNRELATED': 'launchUNRELATED'},
     'sparse': {'LB': 'launchLB', 'PATH': '/launch/bin', 'LD_LIBRARY_PATH': '/launch/lib', 'K2': 'launchK2',
                'UNRELATED': 'launchUNRELATED'},
@@ -28,7 +28,7 @@ GVARS = {'gv': 'gval'}
 
 # ---- the package default environment ("environment"): (layer on default, layer on P)
 _DD = {'D1': 'dd1', 'D2': '$D1/${LA}', 'D4': 'dd4'}
-_DD_DEF = dict(_DD, DEFAULTS='LB:NOPE1')
+_DD_DEF = {'D1': 'dd1', 'D2': '$D1/${LA}', 'D4': '$D1/dd4:$D4', 'DEFAULTS': 'D1:LB:NOPE1:D4'}
 _DP = {'D1': 'pd1', 'D3': 'pd3:$LC'}
 DEFAULT_ENV = {
     'nodef': (None, None),
@@ -48,6 +48,11 @@ LAYER_D = {
     'd4': {'K1': 'd1', 'DEFAULTS': 'NOPE1:NOPE2'},
     'd5': {'K1': 'd1', 'LA': 'mine:$LA', 'RL': 'q$LA', 'DEFAULTS': 'LA:NOPE1:K1'},
     'd6': {'K2': 'd2', 'G': '%(gv)s/g', 'RS': '${INSTANCE_DIR}/s'},
+    # variables that are declared AND imported, whose values reference OTHER declared+imported variables that the
+    # launch environment also defines (listed earlier: K1 before LA; listed later: K3 after LC), next to the
+    # self-reference idiom and a reference to an imported-but-undeclared variable
+    'dx': {'DEFAULTS': 'K1:LA:LB:LC:K3', 'K1': 'd1', 'LA': '$K1/a:$LA', 'LC': '${K3}/c:$LC', 'K3': 'd3',
+           'RB': '$LB/x|$K1'},
 }
 LAYER_P = {
     'p0': None,
